@@ -416,7 +416,7 @@ def main():
             if proof["ok"] and tier == "thorough":
                 # independent re-check of the compiled theorems and everything they depend on
                 rc, out = C.run(["coqchk", "-o", "-silent", "-Q", C.COQ, "SU", "SU.Props." + pid], cwd=C.COQ,
-                                timeout=int(os.environ.get("VERIF_COQCHK_TIMEOUT", "1200")))
+                                timeout=int(os.environ.get("VERIF_COQCHK_TIMEOUT", "600")))
                 C.log("coqchk_%s.log" % pid, out)
                 bad = []
                 if rc == 124:
